@@ -85,7 +85,7 @@ ASSUMPTIONS = [
     "triclinic minimality is judged only when the brute-force shortest image is shorter than half the smallest box height minus the tolerance; "
     "periodic angles/dihedrals only when every bond vector has a unique shortest image (gap to the second image > tolerance)",
     "is_orthogonal is judged outside a band of 8 eps L^2 around its documented absolute tolerance 1e-6",
-    "repeat_box / repeat_box_coord (repetition is not in the statement) are only observed: `repeat_box(atoms, amount)` ignoring `amount` is counted as an observation",
+    "repeat_box / repeat_box_coord: the number of images is only observed (`repeat_box(atoms, amount)` ignoring `amount` is counted); that every repeated atom is a lattice image of its original in the same model is judged",
     "dihedral_backbone needs the Chemical Component Dictionary, absent here: the synthetic dictionary /verif/fixtures/ccd.py is activated (residues ALA/GLY)",
     "remove_pbc documents that molecule centroids end up inside the box; this is observed (note) but not judged, the statement does not demand it",
     "orient_principal_components is judged as a rigid proper motion that centres the structure; alignment of the principal axes is observed only",
@@ -993,6 +993,37 @@ def case_helpers(rng, ctx):
     if rep2.array_length() != k * n:
         ctx.note("repeat_box_ignores_amount")
     ctx.oracle("repeat_observed")
+    # repeat_box is one of the anchored box helpers: whatever the number of images, every atom of the result must be
+    # the corresponding atom of the same model shifted by a lattice vector of that model's box (arrays and stacks)
+    m = int(rng.integers(1, 4))
+    boxes = [gen_box(rng, ctx, np.float32)[0] for _ in range(m)]
+    xs = [gen_box_points(rng, b, (n, 3)) for b in boxes]
+    if m == 1 and rng.random() < 0.5:
+        obj = struc.AtomArray(n)
+        obj.coord = xs[0]
+        obj.box = boxes[0]
+    else:
+        obj = struc.AtomArrayStack(m, n)
+        obj.coord = np.stack(xs)
+        obj.box = np.stack(boxes)
+    obj.set_annotation("uid", np.arange(n))
+    ctx.log("repeat_box", type(obj).__name__, m, [b.tolist() for b in boxes], [x.tolist() for x in xs])
+    ctx.op("repeat_box_%s_depth%d" % (type(obj).__name__, m))
+    rep3, idx3 = struc.repeat_box(obj)
+    ctx.oracle("repeat_box_lattice_images")
+    uid = rep3.get_annotation("uid")
+    if rep3.array_length() % n != 0 or not np.array_equal(uid, np.tile(np.arange(n), rep3.array_length() // n)) \
+            or not np.array_equal(np.asarray(idx3), uid):
+        ctx.fail("repeat_box_lattice_images", "repeat_box: annotations / index array are not the tiled originals")
+    rc = rep3.coord if rep3.coord.ndim == 3 else rep3.coord[None]
+    for mi in range(m):
+        d = np.asarray(rc[mi], np.float64) - np.asarray(xs[mi], np.float64)[uid]
+        nvec, res = G.lattice_residual(d, boxes[mi])
+        tol = G.pbc_tol(boxes[mi], absmax(rc[mi]), E32)
+        if (res > tol).any():
+            ctx.fail("repeat_box_lattice_images", "repeat_box: model %d of %d: an atom is not a lattice image of its original "
+                     "(residual %.4g > %.4g)" % (mi, m, float(res.max()), float(np.max(tol))))
+    ctx.mark_nontrivial()
 
 
 # ====================================================================== stratum: remove_pbc
